@@ -212,3 +212,67 @@ SQL_REDUCED = (
     ("mat", "m1"),
 )
 SQL_ROOTS_ALL = ("X", "Xloose", "Xunb", "X1", "E", "Eloose")
+
+
+# ------------------------------------------------------------------ wider operand pool (C08)
+SQL_POOL_EXTRA = (
+    ("chain", ("X", ("dedup",))),
+    ("chain", ("Y", S((R("c"), DESC)), ("slice", 0, 2))),
+    ("chain", ("Y", ("chain", ("Y",)), ("dedup",))),
+    ("chain", ("X", ("sel", P_A_GT_1), ("calc", "x", NEG_A), ("proj", ABC))),
+    ("chain", ("Y", ("join", ("K",), None, False), ("proj", ABC))),
+    ("join", ("K", ("chain", ("K",))), None, False),
+    ("join", ("K", ("chain", ("K",))), None, True),
+    ("join", ("K2", ("join", ("K",), None, False)), None, False),
+    ("join", ("K", ("sel", ("gt", R("d"), L(7)))), None, False),
+    ("join", ("K", ("calc", "y", ("neg", R("d")))), None, False),
+    ("join", ("K", ("proj", ("a",)), ("dedup",)), None, True),
+    ("join", ("K2", ("proj", ())), None, False),
+    ("join", ("D0",), None, False),
+    ("join", ("K2",), ("gt", R("d2"), R("b")), True),
+)
+SQL_WIDE = SQL_FULL + SQL_POOL_EXTRA
+
+
+# ------------------------------------------------------------------ sort/slice-heavy SQL alphabet (C11)
+SQL_ORDER = (
+    S((R("c"), ASC), (R("a"), ASC), (R("b"), ASC)),
+    S((R("c"), DESC)),
+    S((R("b"), DESC), (R("a"), ASC)),
+    S((R("a"), ASC)),
+    S((R("b"), ASC), (R("c"), DESC), (R("a"), DESC)),
+    S((R("x"), ASC), (R("c"), DESC)),
+    ("slice", 0, 1),
+    ("slice", 1, 3),
+    ("slice", 2, None),
+    ("slice", 0, 4),
+    ("slice", 0, 0),
+    ("proj", ("a", "b")),
+    ("proj", ("b", "c")),
+    ("proj", ("c",)),
+    ("dedup",),
+    ("sel", P_A_GT_1),
+    ("sel", P_C_GE_13),
+    ("calc", "x", NEG_A),
+    ("chain", ("Y",)),
+    ("chain", ("self",)),
+    ("join", ("K",), None, False),
+    ("join", ("K",), None, True),
+    ("mat", "m1"),
+)
+SQL_ORDER_SMALL = (
+    S((R("c"), ASC), (R("a"), ASC), (R("b"), ASC)),
+    S((R("c"), DESC)),
+    S((R("b"), DESC), (R("a"), ASC)),
+    ("slice", 1, 3),
+    ("slice", 2, None),
+    ("slice", 0, 4),
+    ("proj", ("a", "b")),
+    ("proj", ("b", "c")),
+    ("dedup",),
+    ("sel", P_A_GT_1),
+    ("calc", "x", NEG_A),
+    ("chain", ("Y",)),
+    ("join", ("K",), None, False),
+    ("mat", "m1"),
+)
